@@ -10,6 +10,7 @@ package overlay
 //@   safety off
 //@   opt frame=off
 //@   requires t != nil && t.cachedConnections != nil
+//@   at call ExtractCertificateIdentity#1: assume crypto-tls-verified-chains-hold-parsed-certificates: callarg0 != nil
 //@   requires cached-entries-are-existing-connections: forall k string {t.cachedConnections.m[k]} :: t.cachedConnections.keys[k] ==> (t.cachedConnections.m[k] != nil && allocated(t.cachedConnections.m[k]))
 //@   ghost locked bool = false
 //@   ghost rechecked bool = false
